@@ -1,7 +1,7 @@
 (* C02 - Each port runs under exactly the runtime semantics it was configured with. *)
 From Coq Require Import List NArith Bool String.
 From Dznpy Require Import Base.PyStr Base.Result Model.TextGen Model.Scoping Model.PortSelection Model.CppGen Model.Ast
-  Model.SupportFiles Sem.ShellSem Sem.Exec Model.Builder Proofs.SemFacts Proofs.ShellPlanFacts Properties.C01.
+  Model.SupportFiles Sem.ShellSem Sem.Exec Model.Builder Proofs.SemFacts Proofs.ShellPlanFacts Proofs.HygieneFacts Properties.C01.
 Import ListNotations.
 
 (* multi-threaded provides port: the in-event executes in the dispatcher's context, the caller is blocked until it has run
@@ -65,6 +65,43 @@ Theorem C02_sts_pass_through : forall sc w s who vs c, lookup (w_slots w) s = Na
       w_trace := w_trace w ++ [{| r_who := who; r_slot := s; r_args := vs; r_ctx := c |}] |}, Done (fst (sc s vs)) (snd (sc s vs))).
 Proof. exact native_direct. Qed.
 Print Assumptions C02_sts_pass_through.
+
+(* END TO END on every hygienic plan (distinct port names, distinct event names per interface): each event of each
+   single-threaded exposed port, in either direction, is one direct call on the other side in the caller's own context - never
+   the dispatcher's, nothing queued. (The multi-threaded counterparts are C01_*_end_to_end: dispatcher context and blocking
+   for provides in-events, queued then run by the dispatcher for requires out-events.) *)
+Theorem C02_sts_provides_in_event_end_to_end : forall sc fc pp rp L, ctor_assigns fc pp rp = Ok L -> hygienic pp rp ->
+  forall p e vs c, In p pp -> cp_is_mts p = false -> In e (events_of EIn p) ->
+  call sc 1 (world0 pp rp L) (sl (Enc (cp_name p)) DIn e) vs c =
+  ({| w_slots := final_slots L pp rp; w_queue := [];
+      w_trace := [{| r_who := ENC; r_slot := sl (Enc (cp_name p)) DIn e; r_args := vs; r_ctx := c |}] |},
+   Done (fst (sc (sl (Enc (cp_name p)) DIn e) vs)) (snd (sc (sl (Enc (cp_name p)) DIn e) vs))).
+Proof. exact sts_provides_in_event_end_to_end. Qed.
+Print Assumptions C02_sts_provides_in_event_end_to_end.
+Theorem C02_sts_provides_out_event_end_to_end : forall sc fc pp rp L, ctor_assigns fc pp rp = Ok L -> hygienic pp rp ->
+  forall p e vs c, In p pp -> cp_is_mts p = false -> In e (events_of EOut p) ->
+  call sc 1 (world0 pp rp L) (sl (Enc (cp_name p)) DOut e) vs c =
+  ({| w_slots := final_slots L pp rp; w_queue := [];
+      w_trace := [{| r_who := USER; r_slot := sl (Enc (cp_name p)) DOut e; r_args := vs; r_ctx := c |}] |},
+   Done (fst (sc (sl (Enc (cp_name p)) DOut e) vs)) (snd (sc (sl (Enc (cp_name p)) DOut e) vs))).
+Proof. exact sts_provides_out_event_end_to_end. Qed.
+Print Assumptions C02_sts_provides_out_event_end_to_end.
+Theorem C02_sts_requires_out_event_end_to_end : forall sc fc pp rp L, ctor_assigns fc pp rp = Ok L -> hygienic pp rp ->
+  forall p e vs c, In p rp -> cp_is_mts p = false -> In e (events_of EOut p) ->
+  call sc 1 (world0 pp rp L) (sl (Enc (cp_name p)) DOut e) vs c =
+  ({| w_slots := final_slots L pp rp; w_queue := [];
+      w_trace := [{| r_who := ENC; r_slot := sl (Enc (cp_name p)) DOut e; r_args := vs; r_ctx := c |}] |},
+   Done (fst (sc (sl (Enc (cp_name p)) DOut e) vs)) (snd (sc (sl (Enc (cp_name p)) DOut e) vs))).
+Proof. exact sts_requires_out_event_end_to_end. Qed.
+Print Assumptions C02_sts_requires_out_event_end_to_end.
+Theorem C02_sts_requires_in_event_end_to_end : forall sc fc pp rp L, ctor_assigns fc pp rp = Ok L -> hygienic pp rp ->
+  forall p e vs c, In p rp -> cp_is_mts p = false -> In e (events_of EIn p) ->
+  call sc 1 (world0 pp rp L) (sl (Enc (cp_name p)) DIn e) vs c =
+  ({| w_slots := final_slots L pp rp; w_queue := [];
+      w_trace := [{| r_who := USER; r_slot := sl (Enc (cp_name p)) DIn e; r_args := vs; r_ctx := c |}] |},
+   Done (fst (sc (sl (Enc (cp_name p)) DIn e) vs)) (snd (sc (sl (Enc (cp_name p)) DIn e) vs))).
+Proof. exact sts_requires_in_event_end_to_end. Qed.
+Print Assumptions C02_sts_requires_in_event_end_to_end.
 
 (* the accessor's return type tells the semantics: Sts<I> iff single-threaded, Mts<I> iff multi-threaded; the accessor
    target is the component's own port iff single-threaded *)
